@@ -7,6 +7,7 @@ import (
 	"errors"
 	"fmt"
 	"io"
+	"math/bits"
 	"os"
 	"path/filepath"
 	"runtime"
@@ -55,11 +56,25 @@ func watchdog() {
 
 type rapidChooser struct{ t *rapid.T }
 
+// Int composes the value from fair coin flips: rapid.IntRange is strongly
+// biased towards small values (42% of IntRange(0,99) falls into the first
+// decile), which would distort every weight of the generator. Bools are
+// uniform and shrink to false, i.e. the value still shrinks towards lo (the
+// simplest choice of every alternative).
 func (r rapidChooser) Int(lo, hi int, label string) int {
-	if hi <= lo {
+	n := hi - lo + 1
+	if n <= 1 {
 		return lo
 	}
-	return rapid.IntRange(lo, hi).Draw(r.t, label)
+	nbits := bits.Len(uint(n-1)) + 6
+	v := 0
+	for i := 0; i < nbits; i++ {
+		v <<= 1
+		if rapid.Bool().Draw(r.t, label) {
+			v |= 1
+		}
+	}
+	return lo + v%n
 }
 
 // ---------------------------------------------------------------- oracle
@@ -444,6 +459,11 @@ func check(c Case, ev *evid.Collector) *evid.Violation {
 		violation = &evid.Violation{Sig: "harness-infra", Msg: err.Error()}
 		return finish()
 	}
+	defer func() {
+		if br != nil {
+			_ = br.Close()
+		}
+	}()
 	intactSoFar := true
 	for p := range c.Passes {
 		last := p == len(c.Passes)-1
@@ -586,9 +606,6 @@ func check(c Case, ev *evid.Collector) *evid.Violation {
 			}
 			break
 		}
-	}
-	if br != nil {
-		_ = br.Close()
 	}
 	if inlineUsed {
 		labels = append(labels, "inline:served-from-descriptor")
@@ -819,12 +836,12 @@ func TestVerifMakeCorpus(t *testing.T) {
 		t.Skip("VERIF_C01_MAKE_CORPUS not set")
 	}
 	_ = os.MkdirAll(dir, 0o755)
-	seen := map[string]bool{}
+	seen := map[string]int{}
 	x := uint64(88172645463325252)
 	next := func() uint64 { x ^= x << 13; x ^= x >> 7; x ^= x << 17; return x }
 	written := 0
-	for iter := 0; iter < 400000 && written < 160; iter++ {
-		n := 8 + int(next()%56)
+	for iter := 0; iter < 600000 && written < 450; iter++ {
+		n := 8 + int(next()%72)
 		b := make([]byte, n)
 		for i := range b {
 			b[i] = byte(next() >> 32)
@@ -837,13 +854,15 @@ func TestVerifMakeCorpus(t *testing.T) {
 		feats := caseFeatures(&c)
 		fresh := false
 		for _, ft := range feats {
-			if !seen[ft] {
-				seen[ft] = true
+			if seen[ft] < 2 {
 				fresh = true
 			}
 		}
 		if !fresh {
 			continue
+		}
+		for _, ft := range feats {
+			seen[ft]++
 		}
 		name := fmt.Sprintf("seed-%03d", written)
 		body := fmt.Sprintf("go test fuzz v1\n[]byte(%q)\n", string(b))
